@@ -264,13 +264,17 @@ func vf18CrashCase(rt *rapid.T, e *ev.Collector, kind vf18CrashKind, tornAll boo
 		if st.Torn >= 0 {
 			ntorn++
 		}
-		_ = os.RemoveAll(rec)
-		if err := os.Mkdir(rec, 0o700); err != nil {
-			vf18Inconclusive("mkdir: %v", err)
+		// materialize writes the crash state, residue (e.g. *.tmp) included, into rec
+		materialize := func() {
+			_ = os.RemoveAll(rec)
+			if err := os.Mkdir(rec, 0o700); err != nil {
+				vf18Inconclusive("mkdir: %v", err)
+			}
+			if err := st.FS.Materialize(rec); err != nil {
+				vf18Inconclusive("materialize: %v", err)
+			}
 		}
-		if err := st.FS.Materialize(rec); err != nil {
-			vf18Inconclusive("materialize: %v", err)
-		}
+		materialize()
 		where := func() string {
 			var files []string
 			for _, n := range st.FS.Names() {
@@ -329,15 +333,48 @@ func vf18CrashCase(rt *rapid.T, e *ev.Collector, kind vf18CrashKind, tornAll boo
 				violation = fmt.Sprintf("VIOL[c18-crash-identity-replaced]: identity %v had been presented by a completed start; after the crash the bridge presents %v (allowed: %v)\n%s", *P, got, allowed, where())
 				return false
 			}
-			// stability: the recovered identity stays
-			sf2, err2, pan2 := vf18Start(rec, vf18Args{})
-			if pan2 != "" || err2 != nil {
-				violation = fmt.Sprintf("VIOL[c18-crash-identity-lost]: second start after recovery fails: %v %s\n%s", err2, pan2, where())
-				return false
+		}
+		if err == nil {
+			// The history goes on after the crash: continuations of further starts, with
+			// the crash residue carried along exactly as the crash left it.  The recovery
+			// start above has completed and presented `got`, so from here on the ordinary
+			// identity model applies.
+			got := vf18Presented(sf)
+			if P == nil {
+				if _, msg := vf18CheckStart(rec, sf); msg != "" {
+					violation = msg + "\n" + where()
+					return false
+				}
 			}
-			if got2 := vf18Presented(sf2); got2 != got {
-				violation = fmt.Sprintf("VIOL[c18-identity-changed]: recovery presented %v, the next start %v\n%s", got, got2, where())
-				return false
+			variants := []int{0, 1, 2}
+			if st.Torn >= 0 {
+				variants = []int{ntorn % 3} // torn states: one continuation each, in rotation
+			}
+			for _, v := range variants {
+				var steps []vf18ContStep
+				var model, keys *vf18Ident
+				switch v {
+				case 0: // plain (on the directory the recovery start left behind)
+					steps = []vf18ContStep{{name: "plain", args: vf18Args{}}}
+					model = &got
+					cls = append(cls, "crash-start-cont-plain-plain")
+				case 1: // explicit start with the persisted identity, then plain
+					materialize()
+					steps = []vf18ContStep{vf18ExplicitStep(got), {name: "plain", args: vf18Args{}}}
+					cls = append(cls, "crash-start-cont-explicit-same-identity-then-plain")
+				case 2: // iat-mode override, then plain
+					materialize()
+					k := (got.IAT + 1) % 3
+					steps = []vf18ContStep{{name: "iat", args: vf18Args{iatArg: fmt.Sprint(k)}, iat: k}, {name: "plain", args: vf18Args{}}}
+					if P != nil {
+						keys = &got // same crash state, same persisted keys
+					}
+					cls = append(cls, "crash-start-cont-iat-override-then-plain")
+				}
+				if msg := vf18RunSteps(rec, steps, model, P != nil, keys); msg != "" {
+					violation = msg + "\n(the crash state was recovered by a plain start presenting " + got.String() + ")\n" + where()
+					return false
+				}
 			}
 		}
 		h := strings.Join(hist, ";")
@@ -369,3 +406,78 @@ func vf18CrashCase(rt *rapid.T, e *ev.Collector, kind vf18CrashKind, tornAll boo
 }
 
 var vf18StatesTotal, vf18TornTotal int
+
+// ---- continuations after a crash ---------------------------------------------------
+
+type vf18ContStep struct {
+	name string // plain | iat | explicit
+	args vf18Args
+	iat  int
+	expl *vf18Ident
+}
+
+// vf18ExplicitStep: a start that supplies exactly identity id (credentials and iat-mode).
+func vf18ExplicitStep(id vf18Ident) vf18ContStep {
+	return vf18ContStep{name: "explicit", iat: id.IAT, expl: &id, args: vf18Args{
+		nodeIDArg:     fmt.Sprintf("%x", id.NodeID[:]),
+		privateKeyArg: fmt.Sprintf("%x", id.Priv[:]),
+		seedArg:       fmt.Sprintf("%x", id.Seed[:]),
+		iatArg:        fmt.Sprint(id.IAT),
+	}}
+}
+
+// vf18RunSteps runs further starts on dir against the identity model.  model:
+// identity presented by the last completed start on dir (nil: none yet); strict:
+// the first step must succeed even without a model (an identity had been
+// presented before the crash); keys: the keys the first step must present when
+// it does not supply credentials itself (nil: unknown).
+func vf18RunSteps(dir string, steps []vf18ContStep, model *vf18Ident, strict bool, keys *vf18Ident) string {
+	var done []string
+	for i, stp := range steps {
+		done = append(done, stp.args.String())
+		ctx := "continuation after the crash: " + strings.Join(done, " ; ")
+		sf, err, pan := vf18Start(dir, stp.args)
+		if pan != "" {
+			return fmt.Sprintf("VIOL[c18-panic]: %s: %s", ctx, pan)
+		}
+		if err != nil {
+			switch {
+			case model != nil:
+				return fmt.Sprintf("VIOL[c18-crash-identity-lost]: %s: the last start fails although the start before it had succeeded and presented %v: %v", ctx, *model, err)
+			case strict && i == 0:
+				return fmt.Sprintf("VIOL[c18-crash-identity-lost]: %s: the start fails although an identity had been presented before the crash: %v", ctx, err)
+			}
+			return "" // nothing established yet, nothing claimed
+		}
+		got, msg := vf18CheckStart(dir, sf)
+		if msg != "" {
+			return msg + " (" + ctx + ")"
+		}
+		base := model
+		if base == nil {
+			base = keys
+		}
+		switch stp.name {
+		case "plain":
+			if model != nil && got != *model {
+				return fmt.Sprintf("VIOL[c18-identity-changed]: %s: presents %v, the start before it presented %v", ctx, got, *model)
+			}
+			if model == nil && base != nil && !got.sameKeys(*base) {
+				return fmt.Sprintf("VIOL[c18-crash-identity-replaced]: %s: presents %v, the persisted keys are those of %v", ctx, got, *base)
+			}
+		case "iat":
+			if base != nil && !got.sameKeys(*base) {
+				return fmt.Sprintf("VIOL[c18-crash-identity-replaced]: %s: presents %v, the persisted keys are those of %v", ctx, got, *base)
+			}
+			if got.IAT != stp.iat {
+				return fmt.Sprintf("VIOL[c18-iat-override]: %s: runs iat-mode %d", ctx, got.IAT)
+			}
+		case "explicit":
+			if !got.sameKeys(*stp.expl) || got.IAT != stp.iat {
+				return fmt.Sprintf("VIOL[c18-explicit]: %s: presents %v, credentials given were %v", ctx, got, *stp.expl)
+			}
+		}
+		model = &got
+	}
+	return ""
+}
